@@ -200,10 +200,11 @@ def obligations(tier, seed):
     obs.append(ob_flagname(2, 1, one_digit=q))
     obs.append(ob_errors(2))
     if not q:
-        # (3 labels all named / 4 labels all named / 2 set bits: over the 1700 s budget, outside the thorough bound)
-        obs.append(ob_flagval(3, (1, 2), True))
+        obs.append(ob_flagval(3, (0, 1, 2), True))
         obs.append(ob_flagval(4, (3, 1), False))
         obs.append(ob_flagname(3, 1))
+        obs.append(ob_flagname(2, 2))
+        obs.append(ob_flagname(4, 1))
     return obs
 
 
